@@ -54,6 +54,9 @@ def rule_z1(ctx, facts):
         k = an.is_retire(c)
         if k is not None and e2 and op_root(c.args[k]) in fl.flows_to(e2[0].dst_local()):
             e3.append(c)
+    if max(len(e1), len(e2), len(e3), len(e4)) > 1 and min(len(e1), len(e2), len(e3), len(e4)) >= 1:
+        ctx.fail_closed("Z1: more than one candidate for a publication effect in transfer (%d/%d/%d/%d): cannot pair them" % (len(e1), len(e2), len(e3), len(e4)))
+        return
     if not (len(e1) == 1 and len(e2) == 1 and len(e3) == 1 and len(e4) == 1):
         ctx.inst("Z1", tr, "publication effects", tr.span, False,
                  "expected exactly one each of next_table.store(null), table.swap, retire(old), size_ctl.store in transfer; found %d/%d/%d/%d"
